@@ -26,7 +26,9 @@ from harness.model import T
 
 NAMES = ['alpha', 'my_val', 'item_id2', 'user_name', 'zed', 'ab_cd_ef', 'count', 'is_ok']
 ALIASES = ['id', 'itemId', 'ITEM_ID', 'X-Api-Token', 'my key', "it's", 'say "hi"', 'a.b', 'x[0]', 'back\\slash', 'ünï',
-           '{brace}', 'new\nline', 'true', '0', 'qty', 'n', 'Label', 'dollar$', '%s', 'tab\t', "q'\"q", '-1', 'None']
+           '{brace}', 'new\nline', 'true', '0', 'qty', 'n', 'Label', 'dollar$', '%s', 'tab\t', "q'\"q", '-1', 'None',
+           # aliases that look like (are the image of) one of the key transforms: word lists in snake / camel / kebab shape
+           'item_count', 'order_qty2', 'unitPrice', 'api-token', 'Total_Sum']
 PATH_HEADS = ['data', 'meta', 'cfg', 'settings', 'p', 'my root', 'x.y', 'r[0]', "o'k", 'h"q', 'Zz', 'k9']
 PATH_STRS = ['nested', 'info', 'feature flags', 'a.b', 'x[0]', 'true', '7', "it's", 'say "hi"', 'q', 'name', 'count', '-1', 'é', 'b c']
 LOAD_CASES = [None, None, None, 'SNAKE', 'CAMEL', 'PASCAL', 'LISP', 'NONE']
@@ -208,8 +210,9 @@ def _path_src(p):
     return repr(p['text']) if p['style'] == 'text' else repr(list(p['comps']))
 
 
-def render_class(cm, cname):
-    L = ['@dataclass', f'class {cname}({cm["base"]}):', f'    class _({cm["base"]}.Meta):']
+def meta_items(cm, mappings=True):
+    """the lines of the Meta block that states the class model's configuration (`mappings=False`: without the
+    per-class alias mappings, i.e. the part an enclosing class hands down to a nested one)"""
     m = cm['meta']
     items = []
     if cm['engine'] == 'v1':
@@ -217,7 +220,7 @@ def render_class(cm, cname):
         if m.get('v1_key_case'):
             items.append(f'v1_key_case = {m["v1_key_case"]!r}')
         fa = m.get('field_to_alias')
-        if fa:
+        if fa and mappings:
             d = {n: (ks[0] if how == 'str' else tuple(ks)) for n, ks, how in fa['entries']}
             if fa['load'] is not None:
                 d['__load__'] = fa['load']
@@ -228,7 +231,7 @@ def render_class(cm, cname):
         if m.get('load_case'):
             items.append(f'key_transform_with_load = {m["load_case"]!r}')
         kf = m.get('key_to_field')
-        if kf:
+        if kf and mappings:
             d = {}
             if kf['all'] is not None:
                 d['__all__'] = kf['all']
@@ -237,8 +240,18 @@ def render_class(cm, cname):
             items.append(f'json_key_to_field = {d!r}')
     if m.get('dump_case'):
         items.append(f'key_transform_with_dump = {m["dump_case"]!r}')
-    for it in items or ['pass']:
-        L.append('        ' + it)
+    return items
+
+
+def render_class(cm, cname, plain=False):
+    """`plain=True`: an ordinary @dataclass without base class and Meta (a nested class that takes its configuration
+    from the class that encloses it)"""
+    if plain:
+        L = ['@dataclass', f'class {cname}:']
+    else:
+        L = ['@dataclass', f'class {cname}({cm["base"]}):', f'    class _({cm["base"]}.Meta):']
+        for it in meta_items(cm) or ['pass']:
+            L.append('        ' + it)
     for f in cm['fields']:
         d = f['dflt']
         dflt = [f'default={d!r}'] if d is not None else []
@@ -542,9 +555,60 @@ def new_container(next_comp, rng, lists):
     return {}
 
 
+_WORD_RE = None
+
+
+def _alias_words(s):
+    """the ASCII words of an alias text (split at separators and at lower->Upper boundaries)"""
+    global _WORD_RE
+    if _WORD_RE is None:
+        import re
+        _WORD_RE = re.compile(r'[A-Z]+(?![a-z])|[A-Z]?[a-z]+[0-9]*|[0-9]+')
+    return [w.lower() for w in _WORD_RE.findall(s)] if s.isascii() else []
+
+
+def _squash(s):
+    return ''.join(ch for ch in s.lower() if ch.isalnum())
+
+
+def near_miss_keys(cm, rules=None):
+    """Keys that are NOT a documented spelling of anything in the class, but are one key transform away from one of
+    its explicit aliases / path heads: the other letter-casings of every alias text (aliases are matched literally, so
+    these are unknown keys).  Anything that could be read as a spelling of a *field name* (however loosely: compared
+    without separators and case) is left out, as is every explicit key and every top-level path component."""
+    rules = rules or ref_rules(cm)
+    texts, taken, fieldish = [], set(), set()
+    for n, r in rules.items():
+        fieldish.add(_squash(n))
+        taken.update(own_spellings(cm, n))
+        for k in r['keys']:
+            taken.add(k)
+            texts.append(k)
+        for p in r['paths']:
+            taken.add(p[0])
+            if isinstance(p[0], str):
+                texts.append(p[0])
+    for f in cm['fields']:
+        for k in [f.get('dumpa')] + list(f.get('keys') or []) + list(f.get('load') or []):
+            if isinstance(k, str):
+                taken.add(k)
+    out = []
+    for t in texts:
+        ws = _alias_words(t)
+        cands = [t.upper(), t.lower(), t.title(), t.swapcase()]
+        if ws:
+            name = '_'.join(ws)
+            cands += [CASE_FN[c](name) for c in DEFAULT_ENGINE_CASINGS]
+        for c in cands:
+            if c != t and c not in taken and c not in out and _squash(c) not in fieldish and _squash(c) != '':
+                out.append(c)
+    return out
+
+
 def gen_docs(cm, rng, n_docs):
     """-> list of (kind, doc) ; values are distinct ints so the winning key is identifiable"""
     rules = ref_rules(cm)
+    near = near_miss_keys(cm, rules)
     docs = []
     counter = [100]
 
@@ -581,6 +645,11 @@ def gen_docs(cm, rng, n_docs):
                 items.append((t, val()))
         if kind == 'noise':
             items.append((('key', rng.choice(['unknown', 'Zz9', '', 'un known', '9'])), val()))
+        # unknown keys one key transform away from an alias of this class (any document of the history may carry them:
+        # what an earlier document contained must not change where a later one's keys go)
+        if near and rng.random() < (0.75 if kind == 'noise' else 0.3):
+            for k in rng.sample(near, min(len(near), rng.randint(1, 3))):
+                items.append((('key', k), val()))
         rng.shuffle(items)
         doc = {}
         for (tk, tv), v in items:
